@@ -63,8 +63,21 @@ func craftName(h1, h2 uint64) string {
 // first two differ exactly at bit `shared`; at most 2^(60-shared) names are returned. With shared >= 60 the names only
 // differ in the last bits (shared == 64: identical digests), i.e. they are inseparable at some or all fanouts.
 func craftGroup(base uint64, shared, k int, salt uint64) []string {
+	return craftGroupU(base, shared, k, salt, 60)
+}
+
+// usableBits is the number of leading digest bits a HAMT of the given fanout can consume in whole levels
+// (8: 63, 16: 64, 32: 60, 64: 60, 128: 63, 256: 64, 512: 63, 1024: 60); names are separable at that fanout iff their
+// digests differ within those bits.
+func usableBits(fanout int) int {
+	b := bits.Len(uint(fanout)) - 1
+	return 64 / b * b
+}
+
+// craftGroupU is craftGroup for one particular fanout: the names differ pairwise within the first `usable` bits.
+func craftGroupU(base uint64, shared, k int, salt uint64, usable int) []string {
 	var out []string
-	if shared >= 60 {
+	if shared >= usable {
 		for i := 0; i < k; i++ {
 			h := base
 			if shared < 64 {
@@ -74,7 +87,7 @@ func craftGroup(base uint64, shared, k int, salt uint64) []string {
 		}
 		return out
 	}
-	free := 60 - shared
+	free := usable - shared
 	pbits := free
 	if pbits > 8 {
 		pbits = 8
